@@ -22,6 +22,14 @@ func schedFeature(repo, out string, replace map[string]string) {
 	skipFuncs := map[string]bool{"loop": true, "growRing": true, "newSimpleContainer": true, "newTransactionPool": true, "initTransactionPool": true}
 	total := 0
 	for _, rel := range files {
+		// <file>#<Func>#<Func>: scheduling points only in the named functions / methods of the file
+		var only map[string]bool
+		if parts := strings.Split(rel, "#"); len(parts) > 1 {
+			rel, only = parts[0], map[string]bool{}
+			for _, fn := range parts[1:] {
+				only[fn] = true
+			}
+		}
 		f := filepath.Join(repo, rel)
 		src, err := os.ReadFile(f)
 		if err != nil {
@@ -49,9 +57,10 @@ func schedFeature(repo, out string, replace map[string]string) {
 		}
 		for _, d := range af.Decls {
 			fd, ok := d.(*ast.FuncDecl)
-			if !ok || fd.Body == nil || skipFuncs[fd.Name.Name] {
+			if !ok || fd.Body == nil || skipFuncs[fd.Name.Name] || (only != nil && !only[fd.Name.Name]) {
 				continue
 			}
+			delete(only, fd.Name.Name)
 			// mutex operations go through the scheduler's lock model: a thread parked while
 			// holding a real mutex would otherwise block the whole cooperative schedule
 			ast.Inspect(fd.Body, func(n ast.Node) bool {
@@ -90,7 +99,10 @@ func schedFeature(repo, out string, replace map[string]string) {
 				return true
 			})
 		}
-		if len(offs) < 10 {
+		if len(only) > 0 {
+			die("%s: functions not found: %v", f, only)
+		}
+		if len(offs) < 10 && !(only != nil && len(offs) >= 3) {
 			die("%s: only %d statements found", f, len(offs))
 		}
 		total += len(offs)
